@@ -764,10 +764,65 @@ def judge_c16_group(cases, lab):
     return [(c, out[id(c)]) for c in cases]
 
 
+# -- C07 ---------------------------------------------------------------------------------------
+def judge_c07(case, lab):
+    """One history: overloads registered before and between calls on one long-lived graph.  Each
+    call must yield the specification's value under the tables at that time, or a value this
+    same dictionary already produced earlier in the history (the statement exempts stored ones)."""
+    res = Result()
+    a = case["a"]
+    hist = list(a["hist"]) + [{"a": "Observe", "o": a["o"], "eval": a["eval"]}]
+    late = [h for h in hist if h["a"] == "Register"]
+    tabs0 = []
+    for t, entries in enumerate(case["tabs"], start=1):
+        keep = []
+        for e in entries:
+            owner_late = any(canon_val(h["alias"]) == canon_val(e["v"]) and h["impl"] == e["n"] and
+                             case["nodes"][h["d"] - 1].get("tab") == t for h in late)
+            if not owner_late:
+                keep.append(e)
+        tabs0.append(keep)
+    if not any(nd["k"] == "ds" and nd["disp"] for nd in case["nodes"]):
+        return res
+    g = build.Built(lab, case["nodes"], tabs0, raises=a.get("raises", ()))
+    if g.log:
+        res.bad("construction-runs", "building / registering ran %s" % [(e[0], e[1]) for e in g.log][:4])
+    res.nontrivial = bool(late) or any(len(t) for t in case["tabs"])
+    seen = []  # (dict, outcome) pairs observed earlier in this history
+    for i, h in enumerate(hist):
+        if h["a"] == "Register":
+            n0 = len(g.log)
+            g.obj[h["d"]].register(dec(h["alias"]), g.obj[h["impl"]])
+            if len(g.log) != n0:
+                res.bad("register-runs", "register() ran %s" % [(e[0], e[1]) for e in g.log[n0:]][:4])
+            continue
+        o = dec(h["o"])
+        got = observe.call(lambda: g.root.evaluate(copy.deepcopy(o)), lab)
+        exp = h["eval"]
+        if not exp["ok"] and exp["cls"] == "IllTyped":
+            return Result()
+        ok_now = (got["ok"] and exp["ok"] and strict_eq(got["v"], dec(exp["v"]))) or (
+            not exp["ok"] and observe.same_failure(got, exp_failure(exp)))
+        ok_stored = any(strict_eq(o, o2) and same_outcome(got, g2) for o2, g2 in seen if g2["ok"])
+        if not (ok_now or ok_stored):
+            res.bad("dispatch-selects", "call %d under %s: got %s; the specification (tables at that time) gives %s; earlier values for this dictionary: %s" % (
+                i + 1, o, observe.describe(got),
+                show(dec(exp["v"])) if exp["ok"] else exp["cls"],
+                [observe.describe(g2) for o2, g2 in seen if strict_eq(o, o2)]))
+        seen.append((o, got))
+    return res
+
+
+def canon_val(v):
+    import json
+
+    return json.dumps(v, sort_keys=True)
+
+
 TIER = ["quick"]
 
 JUDGES = {"C04": judge_c04, "C09": judge_c09, "C05": judge_c05, "C10": judge_c10, "C11": judge_c11,
-          "C08": judge_c08, "C06": judge_c06}
+          "C08": judge_c08, "C06": judge_c06, "C07": judge_c07}
 GROUP_JUDGES = {"C03": judge_c03_group, "C01": judge_c01_group, "C02": judge_c02_group, "C12": judge_c12_group,
                 "C16": judge_c16_group}
 
